@@ -28,6 +28,8 @@ IMAX = H.P('imax', 2)                    # integer arguments: 0..IMAX
 DEPTH = H.P('depth', 1)
 KMAX = H.P('kmax')                       # lambda constants in -1..KMAX (None: unbounded)
 SEQ = H.P('seq')                        # None: endless iterator source; n: in-memory sequence 0..n-1
+ENTRY = H.P('entry', 'var')              # 'var': source is the context variable $s; 'data': the statement's data ($),
+                                         # through convert_input_data; 'data@re': data, as a re-iterable host object
 LIMIT = H.P('limit')                     # yaql.limitIterators of the engine (None: library default -1)
 ENG = yq.ENG_RAW if LIMIT is None else yq.FACTORY.create(
     options={'yaql.convertOutputData': False, 'yaql.limitIterators': LIMIT})
@@ -107,6 +109,16 @@ class SeqSource(tuple):
         for v in tuple.__iter__(self):
             self.pulls += 1
             yield v
+
+
+class ReIterable:
+    """host-supplied lazy collection: iterable, neither an iterator nor sized; hands out the one counting source"""
+
+    def __init__(self, src):
+        self.src = src
+
+    def __iter__(self):
+        return self.src
 
 
 def make_source(budget, dicts, ideal):
@@ -299,6 +311,13 @@ OPS = [
        lambda it, a: g_delete(it, a['i'], a['j']), needs_int=False, uses=('i', 'j')),
     Op('replace', 'replace($i%d, $k%d, $j%d)', lambda x, a: M('replace', x, a['i'], a['k'], a['j']),
        lambda it, a: g_replace(it, a['i'], a['k'], a['j']), needs_int=False, uses=('i', 'j', 'k')),
+    # default-argument forms of the streaming operators
+    Op('enumerate.default', 'enumerate()', lambda x, a: M('enumerate', x), lambda it, a: ([n, y] for n, y in enumerate(it)),
+       needs_int=False, out_int=False),
+    Op('delete.default', 'delete($i%d)', lambda x, a: M('delete', x, a['i']), lambda it, a: g_delete(it, a['i'], 1),
+       needs_int=False, uses=('i',)),
+    Op('replace.default', 'replace($i%d, $k%d)', lambda x, a: M('replace', x, a['i'], a['k']),
+       lambda it, a: g_replace(it, a['i'], a['k'], 1), needs_int=False, uses=('i', 'k')),
     Op('slice', 'slice($i%d + 1)', lambda x, a: M('slice', x, a['i'] + 1), lambda it, a: g_slice(it, a['i'] + 1),
        needs_int=False, out_int=False, uses=('i',)),
     Op('memorize', 'memorize()', lambda x, a: M('memorize', x), lambda it, a: it, needs_int=False),
@@ -324,6 +343,13 @@ OPS = [
     Op('any', 'any(tick($) > $k%d)', lambda x, a: M('any', x, lambda y: tk(a, y) > a['k']),
        lambda it, a: first_true(tk(a, y) > a['k'] for y in it), terminal=True, uses=('k',),
        closed=lambda a: a['k'] + 2 if a['k'] >= 0 else 1),
+    # default-argument forms of the searches
+    Op('any.nopred', 'any()', lambda x, a: M('any', x), lambda it, a: first_true(True for y in it), needs_int=False,
+       terminal=True, closed=lambda a: 1),
+    Op('all.nopred', 'all()', lambda x, a: M('all', x), lambda it, a: not first_true(not y for y in it),
+       terminal=True, closed=lambda a: 1),
+    Op('first.default', 'first($k%d)', lambda x, a: M('first', x, a['k']), lambda it, a: next(it), needs_int=False,
+       terminal=True, uses=('k',), closed=lambda a: 1),
     Op('all', 'all(tick($) < $k%d)', lambda x, a: M('all', x, lambda y: tk(a, y) < a['k']),
        lambda it, a: not first_true(not (tk(a, y) < a['k']) for y in it), terminal=True, uses=('k',),
        closed=lambda a: a['k'] + 1 if a['k'] >= 0 else 1),
@@ -427,7 +453,7 @@ def run_ideal(sels, demand, ints, consts, budget):
 
 
 def pipe_text(sels):
-    parts = ['$sd' if OPS[sels[0]].dict_src else '$s']
+    parts = ['$' if ENTRY != 'var' else ('$sd' if OPS[sels[0]].dict_src else '$s')]
     for pos, s in enumerate(sels):
         if OPS[s].wrap:
             parts = [OPS[s].wrap % parts[0]]
@@ -446,6 +472,9 @@ def run_real(sels, demand, ints, consts, budget):
             text = pipe_text([int(s) for s in sels])
             REAL_TICKS.n = 0
         kw = {'sd' if OPS[sels[0]].dict_src else 's': src}
+        data = yutils.NO_VALUE
+        if ENTRY != 'var':
+            kw, data = {}, (ReIterable(src) if ENTRY == 'data@re' else src)
         others = []
         for pos in range(len(sels)):
             o = Source(budget)
@@ -455,7 +484,7 @@ def run_real(sels, demand, ints, consts, budget):
             kw['j%d' % (pos + 1)] = ints[2 * pos + 1]
             kw['k%d' % (pos + 1)] = consts[pos]
         try:
-            res = yq.ev(text, eng=ENG, ctx=CTX, **kw)
+            res = yq.ev(text, data, eng=ENG, ctx=CTX, **kw)
             pull(res, sels, demand)
         except Exception as ex:
             return ('raised', type(ex).__name__, src.pulls)
@@ -618,6 +647,21 @@ def conditions(tier, seed):
                                   '0..%d, lambda constants in -1..%d; %s' % (
                                       o.text.replace('%d', ''), (5 if quick else 7) - 1, 2 if quick else 3,
                                       1 if quick else 2, 3 if quick else 5, mode)})
+    # the source handed over as the statement's data (`$`, through convert_input_data) instead of a context variable:
+    # as an iterator and as a re-iterable, unsized host object
+    entry_ops = ['take', 'where', 'select', 'first', 'any.nopred', 'indexWhere'] if quick else NAMES
+    for name in entry_ops:
+        if OPS[NAMES.index(name)].first_only:
+            continue
+        for entry in ('data', 'data@re'):
+            out.append({'name': 'entry[%s|%s]' % (name, entry), 'func': 'h_pipe', 'timeout': 200 if quick else 600,
+                        'twin': False,
+                        'param': {'s1': NAMES.index(name), 'depth': 1, 'mode': 'text', 'budget': 8, 'dmax': 2, 'imax': 1,
+                                  'kmax': 2, 'entry': entry},
+                        'bounds': '$.%s with the endless source given as evaluate(data=...) %s: k in 0..2, ints in 0..1, '
+                                  'lambda constants in -1..2; YAQL text' % (
+                                      OPS[NAMES.index(name)].text.replace('%d', ''),
+                                      'as an iterator' if entry == 'data' else 'as a re-iterable unsized host object')})
     # a sparse producer followed by a bounded consumer, drained past its last result (k may exceed what the consumer
     # can deliver): a consumer that asks upstream for one result more than it hands on pays a whole scan for it
     sparse = [NAMES.index(x) for x in ('where', 'where.mod', 'skipWhile', 'distinct.key')]
